@@ -1,6 +1,7 @@
 package rules
 
 import (
+	"go/types"
 	"go/token"
 	"strings"
 
@@ -108,7 +109,7 @@ func c17Once(c *Ctx, get *ssa.Function) {
 	var ctorCalls []*ssa.Call
 	core.EachInstr(loader, func(in ssa.Instruction) {
 		if call, ok := in.(*ssa.Call); ok && !call.Call.IsInvoke() && call.Call.StaticCallee() == nil {
-			if name, _, isF := core.IsLoadOfField(call.Call.Value); isF && name == "new" {
+			if _, base, isF := core.IsLoadOfField(call.Call.Value); isF && isFuncField(call.Call.Value) && core.NamedOf(base.Type()) == "OnceConstructor" {
 				ctorCalls = append(ctorCalls, call)
 			}
 		}
@@ -209,7 +210,7 @@ func c17Once(c *Ctx, get *ssa.Function) {
 	for _, f := range c.P.Funcs("syncutil") {
 		core.EachInstr(f, func(in ssa.Instruction) {
 			if call, ok := in.(*ssa.Call); ok && !call.Call.IsInvoke() && call.Call.StaticCallee() == nil {
-				if name, base, isF := core.IsLoadOfField(call.Call.Value); isF && name == "new" && core.NamedOf(base.Type()) == "OnceConstructor" {
+				if _, base, isF := core.IsLoadOfField(call.Call.Value); isF && isFuncField(call.Call.Value) && core.NamedOf(base.Type()) == "OnceConstructor" {
 					n++
 					c.check(f == loader, "C17.once.constructor-callers", f, "call of c.new", call, "the constructor may be invoked only from the token-guarded loader")
 				}
@@ -252,8 +253,10 @@ func c17Sema(c *Ctx) {
 	rel := c.fn("syncutil", "ChanSemaphore.Release")
 	acq := c.fn("syncutil", "ChanSemaphore.Acquire")
 	isSemChan := func(v ssa.Value) bool {
-		name, base, ok := core.IsLoadOfField(v)
-		return ok && name == "c" && core.NamedOf(base.Type()) == "ChanSemaphore"
+		// the semaphore's channel: the field of channel type (whatever its name)
+		_, base, ok := core.IsLoadOfField(v)
+		_, isChan := v.Type().Underlying().(*types.Chan)
+		return ok && isChan && core.NamedOf(base.Type()) == "ChanSemaphore"
 	}
 	if rel != nil {
 		n := 0
@@ -340,7 +343,10 @@ func c17Sema(c *Ctx) {
 				return
 			}
 			fa, ok := st.Addr.(*ssa.FieldAddr)
-			if !ok || core.NamedOf(fa.X.Type()) != "ChanSemaphore" || core.FieldName(fa) != "c" {
+			if !ok || core.NamedOf(fa.X.Type()) != "ChanSemaphore" {
+				return
+			}
+			if _, isChan := st.Val.Type().Underlying().(*types.Chan); !isChan {
 				return
 			}
 			_, fresh := fa.X.(*ssa.Alloc)
@@ -376,4 +382,11 @@ func selectBranch(in ssa.Instruction, sel *ssa.Select) (int, bool) {
 		}
 	}
 	return 0, false
+}
+
+// isFuncField: the value is a load of a struct field of function type (the
+// constructor stored in OnceConstructor, whatever the field is called).
+func isFuncField(v ssa.Value) bool {
+	_, ok := v.Type().Underlying().(*types.Signature)
+	return ok
 }
